@@ -8,15 +8,19 @@ BASE = ("cd /repo && /venv/bin/python -m pytest -ra -q -p no:cacheprovider --tim
         "--continue-on-collection-errors")
 
 CLAIMED = {
-    "C01": ("Lean theorems for every device chunk policy (every script, by induction): each message of a chunked "
-            "transfer is CLA cmd op || piece and the pieces concatenate to a contiguous prefix of the data "
-            "(nothing added, dropped or reordered); a transfer that reports success has relayed exactly the data "
-            "and the device named an expected next part; chunk independence. The oracle Spec.C01.c01 recomputes "
+    "C01": ("Lean theorems for every device behaviour (every script, any length): during an authorized signature "
+            "the manager sends only SIGN messages, in this order: the path with the input index, then messages "
+            "of the transaction part whose payloads form a prefix of LE32 length || mode || LE16 || unsigned tx "
+            "|| extra data, then a prefix of the receipt, then a prefix of the framed merkle proof - nothing "
+            "else, nothing reordered - and whenever a signature is returned every part was sent in full "
+            "(sign_relays_exactly, composed from the per-step specification of the chunked transfer); an "
+            "unauthorized signature sends exactly one message, path || hash (sign_hash_relays_exactly); per "
+            "transfer: prefix / completeness-on-success / chunk independence. The oracle Spec.C01.c01 recomputes "
             "the expected parts (path/input, BTC payload layout with unsigned tx and extra data, receipt, proof "
             "framing) from the request independently of the model's encoders and checks prefix/order/"
             "completeness and success-iff-consumed-and-DER on the implementation's APDU trace.",
-            "partial: the composition of the four steps inside sign_authorized is tied by correspondence + oracle "
-            "(theorems are per chunked transfer); python-bitcoinlib is represented by the shim"),
+            "the converse 'every part consumed and device success => reply successful' is decided by "
+            "correspondence + oracle; python-bitcoinlib is represented by the shim"),
     "C02": ("Lean theorems: non-objects get the format error; everything the generic gate or a command's validator "
             "refuses is answered with that code with no event at all in every world (rejected_no_contact); "
             "accepted requests are handed to the operation; udValue/keyId validators agree with the documented "
